@@ -32,14 +32,14 @@ func verifC09Used(t vlib.TB, b []byte) {
 		o.pan, _ = vlib.Catch(func() {
 			o.ok = P.FromBytes(b)
 			if o.ok {
-				o.enc = make([]byte, 32)
-				_ = P.ToBytes(o.enc)
-				o.x, o.y = append([]byte{}, P.x[:]...), append([]byte{}, P.y[:]...)
-				// behaviour under arithmetic: 2·P
+				// behaviour under arithmetic: 2·P, computed before ToBytes normalises P
 				D := *P
 				D.double()
 				o.dbl = make([]byte, 32)
 				_ = D.ToBytes(o.dbl)
+				o.enc = make([]byte, 32)
+				_ = P.ToBytes(o.enc)
+				o.x, o.y = append([]byte{}, P.x[:]...), append([]byte{}, P.y[:]...)
 			}
 		})
 		return o
